@@ -1,0 +1,25 @@
+//! Verification hooks (only compiled with `--cfg zarrs_verif`).
+//!
+//! A process-wide callback that instrumented code calls at named points. With no callback installed every
+//! hook is a no-op. Used by the verification harness to observe lock acquisitions and buffer writes and to
+//! park threads at yield points so that interleavings can be enumerated.
+
+use std::sync::{Arc, RwLock};
+
+/// A hook callback: `(event name, arguments)`.
+pub type Hook = Arc<dyn Fn(&str, &[u64]) + Send + Sync>;
+
+static HOOK: RwLock<Option<Hook>> = RwLock::new(None);
+
+/// Install (or remove with `None`) the process-wide hook.
+pub fn set_hook(hook: Option<Hook>) {
+    *HOOK.write().unwrap() = hook;
+}
+
+/// Call the hook, if one is installed. The registry lock is not held while the callback runs.
+pub fn emit(event: &str, args: &[u64]) {
+    let hook = HOOK.read().unwrap().clone();
+    if let Some(hook) = hook {
+        hook(event, args);
+    }
+}
